@@ -67,9 +67,13 @@ theorem step_proj (u : Nat) (s : PTree Dist × Array NodeK) (v : Nat) (w : Rat) 
 
 /-- the relax loop leaves the adjacency vectors and the size of the node array alone -/
 def SameAdj (vs0 vs : Array NodeK) : Prop :=
-  vs.size = vs0.size ∧ ∀ k, (aget vs k).neighbours = (aget vs0 k).neighbours ∧ (aget vs k).nweights = (aget vs0 k).nweights
+  vs.size = vs0.size ∧ ∀ k, (aget vs k).neighbours = (aget vs0 k).neighbours ∧ (aget vs k).nweights = (aget vs0 k).nweights ∧
+    (aget vs k).id = (aget vs0 k).id
 
-theorem SameAdj.refl (vs : Array NodeK) : SameAdj vs vs := ⟨rfl, fun _ => ⟨rfl, rfl⟩⟩
+theorem SameAdj.refl (vs : Array NodeK) : SameAdj vs vs := ⟨rfl, fun _ => ⟨rfl, rfl, rfl⟩⟩
+
+theorem SameAdj.trans {a b c : Array NodeK} (h1 : SameAdj a b) (h2 : SameAdj b c) : SameAdj a c :=
+  ⟨h2.1.trans h1.1, fun k => ⟨(h2.2 k).1.trans (h1.2 k).1, (h2.2 k).2.1.trans (h1.2 k).2.1, (h2.2 k).2.2.trans (h1.2 k).2.2⟩⟩
 
 theorem stepG_sameAdj {H : Type} (u : Nat) (decKey : H → Nat → Array NodeK → H) (vs0 : Array NodeK) (s : H × Array NodeK)
     (vw : Nat × Dist) (h : SameAdj vs0 s.2) : SameAdj vs0 (stepG u decKey s vw).2 := by
@@ -97,6 +101,27 @@ theorem fold_proj (u : Nat) (vs0 : Array NodeK) (l : List (Nat × Rat)) (s : PTr
     rw [ih _ (stepG_sameAdj u decKeyM vs0 s _ hs) (fun q hq => hval q (by simp [hq]))]
     rw [step_proj u s p.1 p.2 (by rw [hs.1]; exact hval p (by simp))]
 
+/-- any loop body that is `stepG` on the `i`-th adjacency entry of `u` (read from the current state) folds `relaxEdgeH` -/
+theorem relax_generic (body : Nat → PTree Dist × Array NodeK → PTree Dist × Array NodeK) (es : List (Nat × Nat × Rat)) (u : Nat)
+    (hbody : ∀ i s, body i s = stepG u decKeyM s ((aget s.2 u).neighbours.getD i default, (aget s.2 u).nweights.getD i default))
+    (vs : Array NodeK) (Q : PTree Dist)
+    (hnb : (aget vs u).neighbours = (adj es u).map (·.1))
+    (hnw : (aget vs u).nweights = (adj es u).map (fun p => some p.2))
+    (hval : ∀ p ∈ adj es u, p.1 < vs.size) :
+    proj (forRange body ((aget vs u).neighbours.length - 0) 0 (Q, vs)) = (adj es u).foldl (relaxEdgeH u) (dOf vs, Q) ∧
+    SameAdj vs (forRange body ((aget vs u).neighbours.length - 0) 0 (Q, vs)).2 := by
+  have hlen : (aget vs u).neighbours.length = (adj es u).length := by rw [hnb]; simp
+  rw [Nat.sub_zero, hlen]
+  obtain ⟨h1, h2⟩ := forRange_list_inv (fun (s : PTree Dist × Array NodeK) => SameAdj vs s.2) (adj es u)
+    body (fun s p => stepG u decKeyM s (p.1, some p.2)) 0 (Q, vs) (SameAdj.refl vs)
+    (by
+      intro i hi s hs
+      refine ⟨?_, stepG_sameAdj u decKeyM vs s _ hs⟩
+      rw [Nat.zero_add, hbody, (hs.2 u).1, (hs.2 u).2.1, hnb, hnw]
+      simp [List.getD, hi])
+  rw [h1]
+  exact ⟨fold_proj u vs (adj es u) (Q, vs) (SameAdj.refl vs) hval, h2⟩
+
 theorem relax_eq (es : List (Nat × Nat × Rat)) (u : Nat) (vs : Array NodeK) (Q : PTree Dist)
     (hnb : (aget vs u).neighbours = (adj es u).map (·.1))
     (hnw : (aget vs u).nweights = (adj es u).map (fun p => some p.2))
@@ -112,7 +137,7 @@ theorem relax_eq (es : List (Nat × Nat × Rat)) (u : Nat) (vs : Array NodeK) (Q
     (by
       intro i hi s hs
       refine ⟨?_, stepG_sameAdj u decKeyM vs s _ hs⟩
-      rw [Nat.zero_add, body_eq, (hs.2 u).1, (hs.2 u).2, hnb, hnw]
+      rw [Nat.zero_add, body_eq, (hs.2 u).1, (hs.2 u).2.1, hnb, hnw]
       simp [List.getD, hi])
   rw [h1]
   refine ⟨?_, h2⟩
@@ -140,6 +165,6 @@ theorem relax_pre_true {H : Type} (decKey : H → Nat → Array NodeK → H) (vs
     rw [hs.1]; apply hval
     simp only [List.getD, List.getElem?_eq_getElem hi', Option.getD_some]; exact List.getElem_mem hi'
   unfold dijkstra_relax_body1_pre
-  simp only [(hs.2 u).1, (hs.2 u).2, hlen, hi', hus, hv, decide_true, Bool.and_self, Bool.or_true, Bool.and_true, ite_self]
+  simp only [(hs.2 u).1, (hs.2 u).2.1, hlen, hi', hus, hv, decide_true, Bool.and_self, Bool.or_true, Bool.and_true, ite_self]
 
 end AdaptaVerif.Lemmas.DijkstraRelaxBridge
